@@ -8,22 +8,21 @@ from vlib.shrink import ddmin
 META = {
     'level_text': 'Proved for ALL accepted runs of the transaction model (= all schedules of any number of callers, all device behaviours, all '
                   'non-decreasing clocks; the model is an acceptor of time-stamped event sequences with one event per primitive on shared '
-                  'state and per-caller program counters following io.py): lock_exclusive; multicomm_atomic (between two sends of one call '
-                  'every send is that caller\'s; monitor soundness multicommAtomicB_sound); stale_discarded_run and reply_pairing_run (every '
-                  'completed reply is the first line / first rlen bytes of what ARRIVED AFTER the caller\'s own last send; under in-order '
-                  'answers it is the device\'s answer to that send); delays_honoured_run and delays_honoured_return (consecutive sends of a '
-                  'multicomm, and its return, respect the delay of the request sent before); state_visible_run (closed recv -> update '
-                  'is_connected=false before the call returns); reconnect_rate_limited (an on-demand attempt comes >= pollinterval after every '
-                  'earlier attempt, under AttemptsAtomic = the effect of accessLock, which is a monitored clause on the implementation).  '
-                  'Proved for all inputs: framing_chunk_independent (+_bytes, _eq_unchunked) for AsynConn.readline/readbytes.  Step-level only '
-                  '(`*_partial`): fails_within_timeout, callbacks_once.  state_visible_fails: the clause "is_connected is not set back to true '
-                  'without a connect" is FALSE for the code that exists (recorded finding, counter-run proved).  Every clause is judged by its '
-                  'Lean monitor on every run of the real StringIO/BytesIO under the deterministic scheduler, and every run is replayed through '
-                  'the model (0 rejected events).',
+                  'state and per-caller program counters following io.py): lock_exclusive; multicomm_atomic (+ monitor soundness); '
+                  'stale_discarded_run, reply_pairing_run and reply_own_ret (every reply completed / returned is the first line or first rlen '
+                  'bytes of what ARRIVED AFTER one of the caller\'s own sends of that call; under in-order answers it is the device\'s answer); '
+                  'delays_honoured_run and delays_honoured_return; fails_within_timeout_run (an empty recv of the read loop ends at most one '
+                  'recv period after the time-out or the last data); state_visible_run; reconnect_rate_limited (under AttemptsAtomic = the effect '
+                  'of accessLock, a monitored clause with proved monitor soundness); callbacks_once_run (after a reconnect the caller\'s next '
+                  'events are the runs of the registered callbacks, each once, in order).  Proved for all inputs: framing_chunk_independent '
+                  '(+_bytes, _eq_unchunked) for AsynConn.readline/readbytes; polling_resumes_partial (trigger_all makes every polled module due).  '
+                  'state_visible_fails: the clause "is_connected is not set back to true without a connect" is FALSE for the code that exists '
+                  '(recorded finding, counter-run proved).  Every clause is judged by its Lean monitor on every run of the real '
+                  'StringIO/BytesIO under the deterministic scheduler, and every run is replayed through the model (0 rejected events).',
     'level_note': 'Trusted: Lean kernel + axioms propext/Classical.choice/Quot.sound; the scripted device and FakeConn (lowest AsynConn layer: '
                   'recv/send/flush_recv) replace sockets, select and kernel buffering; the run-level theorems for replies are stated at the event '
                   'that completes a reply (model state), their link to the `ret`-window form of the monitors is by the model\'s `ret` guard, not '
-                  'a separate theorem; fails_within_timeout and callbacks_once are proved step-level only.',
+                  'a separate theorem (the `*_statement` definitions keep the monitor forms); polling_resumes is judged on the real poll thread only.',
     'trusted': [
         'FakeConn.recv blocks at most AsynConn.timeout (1 s) and returns one device chunk at a time; flush_recv drains what has arrived (as AsynTcp)',
         'no byte arrives between the end of flush_recv and the send (same virtual instant)',
@@ -183,6 +182,9 @@ def run_case(case, policy=None, max_steps=20000):
                     return list(io.multicomm([tuple(r) for r in op[1]]))
                 if k == 'poll':
                     io.doPoll()
+                    return []
+                if k == 'wic':       # a client writes is_connected (hand experiments only: not modelled)
+                    io.write_is_connected(op[1])
                     return []
                 raise ValueError(k)
 
